@@ -44,9 +44,10 @@ theorem put_of_not_mem {m : CMap} {k v : Nat} (h : k ∉ m.keys) : m.put k v = m
 /-- what the session holds -/
 def held (s : St) : CMap := s.txConns ++ s.ksConns
 
-/-- the held connections that must be master connections -/
-def masters (cfg : Cfg) (s : St) : List Nat :=
-  s.txConns.vals ++ (if cfg.user = .r then [] else s.ksConns.vals)
+/-- the held connections, all of which must be master connections (since the
+    keep-session repair for every user: `_cfg` is kept for the callers) -/
+def masters (_cfg : Cfg) (s : St) : List Nat :=
+  s.txConns.vals ++ s.ksConns.vals
 
 /-- `L`: connections taken by the command in progress that are in neither map -/
 structure Inv (q : Q) (cfg : Cfg) (L : CMap) (s : St) : Prop where
@@ -185,7 +186,7 @@ theorem inv_getTransactionConn {sl : Nat} {pc : Option Nat} {err : Bool}
               · simp only [held, hks, List.append_nil]
                 exact perm_snoc_mid _ _ _
               · intro d hd
-                simp only [masters, hks, CMap.vals, List.map_nil, ite_self, List.append_nil] at hd ⊢
+                simp only [masters, hks, CMap.vals, List.map_nil, List.append_nil] at hd ⊢
                 simpa [CMap.vals] using hd
             · exact h.ksOff
             · intro hk'; rw [hk] at hk'; cases hk'
@@ -234,24 +235,13 @@ theorem inv_getBackendKsConn {sl : Nat} {pc : Option Nat} {err : Bool}
       rcases wi_sliceGetConn' ctx _ sl h.wi hsl hp with ⟨c', hr, hn, hw⟩ | ⟨hr, _⟩
       · cases hr
         -- the masters list after the connection is pinned
-        have hM : ∀ d, d ∈ masters cfg { s with ksConns := s.ksConns ++ [(sl, c)] } →
-            d ∈ (if (ctx.cfg.user == User.r) = true then masters cfg s else masters cfg s ++ [c]) := by
+        have hM : ∀ d, d ∈ masters cfg { s with ksConns := s.ksConns ++ [(sl, c)] } → d ∈ masters cfg s ++ [c] := by
           intro d hd
-          simp only [masters, htx, CMap.vals, List.map_nil, List.nil_append] at hd ⊢
-          by_cases hu : cfg.user = .r
-          · simp [hu] at hd
-          · have : (ctx.cfg.user == User.r) = false := by rw [hcfg]; simpa using hu
-            simp only [hu, if_false, List.map_append, List.map_cons, List.map_nil, List.mem_append,
-              List.mem_cons, List.not_mem_nil, or_false] at hd
-            simp only [this, Bool.false_eq_true, if_false, hu, List.mem_append, List.mem_cons, List.not_mem_nil, or_false]
-            exact hd
-        have hM0 : ∀ d, d ∈ masters cfg s →
-            d ∈ (if (ctx.cfg.user == User.r) = true then masters cfg s else masters cfg s ++ [c]) := by
-          intro d hd; split
-          · exact hd
-          · exact List.mem_append_left _ hd
+          simpa [masters, htx, CMap.vals] using hd
+        have hM0 : ∀ d, d ∈ masters cfg s → d ∈ masters cfg s ++ [c] := fun d hd => List.mem_append_left _ hd
+        simp only [Bool.false_eq_true, if_false] at hw
         have hcm : c ∈ (held s ++ L ++ [(sl, c)]).vals := by simp [CMap.vals]
-        generalize hMM : (if (ctx.cfg.user == User.r) = true then masters cfg s else masters cfg s ++ [c]) = M' at hw hM hM0
+        generalize hMM : masters cfg s ++ [c] = M' at hw hM hM0
         have hwA : WInv q (held s ++ L ++ [(sl, c)]) M' (if !s.autocommit then call ctx .A0 c w1 else (w1, Res.ok)).1 := by
           split
           · exact wi_call ctx .A0 hT hw hcm
@@ -403,108 +393,35 @@ theorem inv_clearKsConns (h : Inv q cfg L s) :
     simp only [held, List.append_nil, closeRecycleAll]
     refine this.subM ?_
     intro d hd
-    simp only [masters, CMap.vals, List.map_nil, ite_self, List.append_nil] at hd
+    simp only [masters, CMap.vals, List.map_nil, List.append_nil] at hd
     simp only [masters, List.mem_append]
     exact Or.inl hd
   · exact ⟨h, SameFlags.refl _, rfl, Or.inl rfl⟩
 
-theorem wi_dropTx {M : List Nat} (ctx : Ctx) (hT : QH q ctx) (lost : Nat) :
-    ∀ (E R : CMap) (w : World), WInv q (E ++ R) M w →
-      WInv q (E.filter (fun e => e.2 == lost) ++ R) M (E.vals.foldl (fun w c => dropTx ctx lost c w) w) := by
-  intro E
-  induction E with
-  | nil => intro R w h; simpa [CMap.vals] using h
-  | cons e E ih =>
-    intro R w h
-    obtain ⟨sl, c⟩ := e
-    simp only [CMap.vals, List.map_cons, List.foldl_cons]
-    by_cases hc : c = lost
-    · subst hc
-      simp only [dropTx, if_true, List.filter_cons, beq_self_eq_true]
-      have hp : ((sl, c) :: E ++ R).Perm (E ++ (R ++ [(sl, c)])) := by
-        rw [← List.append_assoc]
-        exact (List.perm_append_comm (l₁ := [(sl, c)]) (l₂ := E ++ R))
-      have := ih (R ++ [(sl, c)]) w (h.perm hp)
-      refine this.perm ?_
-      rw [← List.append_assoc]
-      exact (List.perm_append_comm (l₁ := List.filter (fun e => e.2 == c) E ++ R) (l₂ := [(sl, c)]))
-    · have hcm : c ∈ CMap.vals ((sl, c) :: E ++ R) := by simp [CMap.vals]
-      have hn : c ∉ CMap.vals (E ++ R) := by
-        have := h.nodupC
-        simp only [CMap.vals, List.cons_append, List.map_cons, List.nodup_cons] at this
-        exact this.1
-      have h1 : WInv q ((sl, c) :: E ++ R) M (if isClosed c w then w else (call ctx .R c w).1) := by
-        split
-        · exact h
-        · exact wi_call ctx .R hT h hcm
-      have h2 := wi_recycle h1 hcm
-      rw [List.cons_append, drop_head hn] at h2
-      have hne : ((sl, c).2 == lost) = false := by simpa using hc
-      simp only [dropTx, hc, if_false, List.filter_cons, hne, Bool.false_eq_true]
-      exact ih R _ h2
-
-/-- the closed branch of `recycleBackendConn` / `recycleContinueConn` -/
-theorem inv_recycleClosed (hcfg : ctx.cfg = cfg) (hT : QH q ctx) {c : Nat}
-    (h : Inv q cfg L s) (hc : c ∈ (held s ++ L).vals) :
-    let s2 := forgetKsConn c (recycleTx ctx c s)
+/-- the closed branch of `recycleBackendConn` / `recycleContinueConn` outside a transaction -/
+theorem inv_recycleClosed {c : Nat}
+    (h : Inv q cfg L s) (hc : c ∈ (held s ++ L).vals) (hin : s.isInTransaction = false) :
+    let s2 := forgetKsConn c s
     Inv q cfg (drop c L) { s2 with w := recycle c s2.w } := by
   intro s2
-  -- after recycleTx: no transaction connection is left, except `c` itself in the ledger
-  have h1 : (recycleTx ctx c s).txConns = [] ∧ (recycleTx ctx c s).ksConns = s.ksConns ∧
-      WInv q (s.txConns.filter (fun e => e.2 == c) ++ (s.ksConns ++ L)) (masters cfg s) (recycleTx ctx c s).w := by
-    unfold recycleTx
-    cases hin : s.isInTransaction with
-    | false =>
-      have htx := h.txIdle hin
-      simp only [Bool.not_false, if_true, htx, List.filter_nil, List.nil_append]
-      refine ⟨trivial, trivial, ?_⟩
-      have := h.wi
-      simpa [held, htx] using this
-    | true =>
-      simp only [Bool.not_true, Bool.false_eq_true, if_false]
-      refine ⟨trivial, trivial, ?_⟩
-      have hp : (held s ++ L).Perm (iterOrder ctx.ord s.txConns ++ (s.ksConns ++ L)) := by
-        simp only [held, List.append_assoc]
-        exact (iterOrder_perm ctx.ord s.txConns).symm.append_right _
-      have := wi_dropTx ctx hT c _ _ _ (h.wi.perm hp)
-      refine this.perm ?_
-      exact ((iterOrder_perm ctx.ord s.txConns).filter _).append_right _
-  obtain ⟨htx1, hks1, hw1⟩ := h1
-  have hcm : c ∈ CMap.vals (s.txConns.filter (fun e => e.2 == c) ++ (s.ksConns ++ L)) := by
-    simp only [held, CMap.vals, List.map_append, List.mem_append, List.mem_map] at hc ⊢
-    rcases hc with (⟨e, he, hec⟩ | ⟨e, he, hec⟩) | ⟨e, he, hec⟩
-    · exact Or.inl ⟨e, List.mem_filter.2 ⟨he, by simpa using hec⟩, hec⟩
-    · exact Or.inr (Or.inl ⟨e, he, hec⟩)
-    · exact Or.inr (Or.inr ⟨e, he, hec⟩)
-  have hw2 := wi_recycle hw1 hcm
-  have hdrop : drop c (s.txConns.filter (fun e => e.2 == c) ++ (s.ksConns ++ L)) =
-      s.ksConns.filter (fun e => e.2 != c) ++ drop c L := by
-    rw [drop_append, drop_append]
-    have : drop c (s.txConns.filter (fun e => e.2 == c)) = [] := by
-      simp only [drop, List.filter_filter, List.filter_eq_nil_iff]
-      intro e _; simp
-    rw [this]; rfl
+  have htx := h.txIdle hin
+  have hw2 := wi_recycle h.wi hc
+  have hdrop : drop c (held s ++ L) = s.ksConns.filter (fun e => e.2 != c) ++ drop c L := by
+    simp only [held, htx, List.nil_append, drop_append]; rfl
   rw [hdrop] at hw2
   refine ⟨?_, ?_, ?_, ?_⟩
-  · simp only [s2, forgetKsConn, held, htx1, hks1, List.nil_append]
+  · simp only [s2, forgetKsConn, held, htx, List.nil_append]
     refine hw2.subM ?_
     intro d hd
-    simp only [masters, htx1, CMap.vals, List.map_nil, List.nil_append] at hd
-    simp only [masters, List.mem_append]
-    right
-    split at hd
-    · cases hd
-    · rename_i hu
-      simp only [hu, if_false]
-      simp only [List.mem_map, List.mem_filter] at hd
-      obtain ⟨e, ⟨he, _⟩, hed⟩ := hd
-      exact List.mem_map.2 ⟨e, he, hed⟩
+    simp only [masters, htx, CMap.vals, List.map_nil, List.nil_append, List.mem_map, List.mem_filter] at hd ⊢
+    obtain ⟨e, ⟨he, _⟩, hed⟩ := hd
+    exact ⟨e, he, hed⟩
   · intro hk
-    simp only [s2, forgetKsConn, hks1, h.ksOff hk, List.filter_nil]
+    simp only [s2, forgetKsConn, h.ksOff hk, List.filter_nil]
   · intro _
-    simp only [s2, forgetKsConn, htx1]
+    simp only [s2, forgetKsConn, htx]
   · intro _
-    simp only [s2, forgetKsConn, htx1]
+    simp only [s2, forgetKsConn, htx]
 
 /-- how the connection handed to a recycle function is owned: held in a map, or
     (outside keep-session and transactions) taken by the command in progress -/
@@ -515,9 +432,6 @@ theorem not_local_of_held (h : Inv q cfg L s) {c : Nat} (hc : c ∈ (held s).val
   have := h.wi.nodupC
   rw [vals_append] at this
   exact fun hl => (List.nodup_append.1 this).2.2 c hc c hl rfl
-
-theorem flags_recycleTx (c : Nat) : SameFlags s (recycleTx ctx c s) := by
-  unfold recycleTx; split <;> exact ⟨rfl, rfl, rfl, rfl, rfl, rfl, rfl, rfl⟩
 
 theorem flags_clearKsConns : SameFlags s (clearKsConns ctx s) := by
   unfold clearKsConns; split <;> exact ⟨rfl, rfl, rfl, rfl, rfl, rfl, rfl, rfl⟩
@@ -557,11 +471,11 @@ theorem inv_recycleRest (hcfg : ctx.cfg = cfg) {c : Nat}
       have := wi_recycle hw hcl
       simpa [masters, htx, hks] using this
 
-theorem inv_recycleBackendConn (hcfg : ctx.cfg = cfg) (hT : QH q ctx) {c : Nat}
+theorem inv_recycleBackendConn (hcfg : ctx.cfg = cfg) (_hT : QH q ctx) {c : Nat}
     (h : Inv q cfg L s) (hc : OwnedBy cfg L s c) :
     SameFlags s (recycleBackendConn ctx (some c) s) ∧
     (Inv q cfg (drop c L) (recycleBackendConn ctx (some c) s) ∨
-     (recycleBackendConn ctx (some c) s = s ∧ s.continueConn.isSome = true ∧ moreRows c s.w = true ∧
+     (recycleBackendConn ctx (some c) s = s ∧ s.continueConn.isSome = true ∧ morePending c s.w = true ∧
       isClosed c s.w = false)) := by
   have hcm : c ∈ (held s ++ L).vals := by
     rw [vals_append]
@@ -571,9 +485,16 @@ theorem inv_recycleBackendConn (hcfg : ctx.cfg = cfg) (hT : QH q ctx) {c : Nat}
   unfold recycleBackendConn
   simp only
   split
-  · refine ⟨?_, Or.inl (inv_recycleClosed hcfg hT h hcm)⟩
-    have := flags_recycleTx (s := s) (ctx := ctx) c
-    exact ⟨this.autocommit, this.inTrans, this.continueConn, this.savepoints, this.closed, this.nsOld, this.nsCtx, this.nsCur⟩
+  · cases hin : s.isInTransaction with
+    | true =>
+      simp only [if_true]
+      refine ⟨SameFlags.refl _, Or.inl ?_⟩
+      rcases hc with hc | ⟨_, hin', _⟩
+      · rw [drop_of_not_mem (not_local_of_held h hc)]; exact h
+      · rw [hin] at hin'; cases hin'
+    | false =>
+      simp only [Bool.false_eq_true, if_false]
+      exact ⟨⟨rfl, rfl, rfl, rfl, rfl, rfl, rfl, rfl⟩, Or.inl (inv_recycleClosed h hcm hin)⟩
   · rename_i hcl
     split
     · rename_i hcont
@@ -586,7 +507,7 @@ theorem inv_recycleBackendConn (hcfg : ctx.cfg = cfg) (hT : QH q ctx) {c : Nat}
         · exact SameFlags.refl _
         · exact ⟨rfl, rfl, rfl, rfl, rfl, rfl, rfl, rfl⟩
 
-theorem inv_recycleContinueConn (hcfg : ctx.cfg = cfg) (hT : QH q ctx) {c : Nat}
+theorem inv_recycleContinueConn (hcfg : ctx.cfg = cfg) (_hT : QH q ctx) {c : Nat}
     (h : Inv q cfg L s) (hc : OwnedBy cfg L s c) :
     SameFlags s (recycleContinueConn ctx (some c) s) ∧
     Inv q cfg (drop c L) (recycleContinueConn ctx (some c) s) := by
@@ -598,9 +519,16 @@ theorem inv_recycleContinueConn (hcfg : ctx.cfg = cfg) (hT : QH q ctx) {c : Nat}
   unfold recycleContinueConn
   simp only
   split
-  · refine ⟨?_, inv_recycleClosed hcfg hT h hcm⟩
-    have := flags_recycleTx (s := s) (ctx := ctx) c
-    exact ⟨this.autocommit, this.inTrans, this.continueConn, this.savepoints, this.closed, this.nsOld, this.nsCtx, this.nsCur⟩
+  · cases hin : s.isInTransaction with
+    | true =>
+      simp only [if_true]
+      refine ⟨SameFlags.refl _, ?_⟩
+      rcases hc with hc | ⟨_, hin', _⟩
+      · rw [drop_of_not_mem (not_local_of_held h hc)]; exact h
+      · rw [hin] at hin'; cases hin'
+    | false =>
+      simp only [Bool.false_eq_true, if_false]
+      exact ⟨⟨rfl, rfl, rfl, rfl, rfl, rfl, rfl, rfl⟩, inv_recycleClosed h hcm hin⟩
   · refine ⟨?_, inv_recycleRest hcfg h hc⟩
     split
     · exact flags_clearKsConns
@@ -635,16 +563,21 @@ theorem call_ne_z_of_calm (ctx : Ctx) (hT : Calm ctx) (k : CK) (c : Nat) (w : Wo
 theorem ne_z_of_isOk {r : Res} (h : r.isOk = true) : r ≠ .z := by
   intro e; subst e; simp [Res.isOk] at h
 
-theorem wi_executeSingle {O : CMap} {M : List Nat} {w : World} (ctx : Ctx) (hT : QH q ctx) {c : Nat}
-    (h : WInv q O M w) (hc : c ∈ O.vals) : WInv q O M (executeSingleSQLInSlice ctx c w).1 := by
+/-- `executeSingleSQLInSlice` and the `Close` that follows a statement timeout on both execution paths -/
+theorem wi_executeSingle_close {O : CMap} {M : List Nat} {w : World} (ctx : Ctx) (hT : QH q ctx) {c : Nat}
+    (h : WInv q O M w) (hc : c ∈ O.vals) :
+    WInv q O M (if (executeSingleSQLInSlice ctx c w).2 = .t then close c (executeSingleSQLInSlice ctx c w).1
+      else (executeSingleSQLInSlice ctx c w).1) := by
   unfold executeSingleSQLInSlice
   have h1 := wi_call ctx .U hT h hc
   generalize call ctx .U c w = p at h1
   obtain ⟨w1, r1⟩ := p
   simp only
   split
-  · exact h1
-  · exact wi_call ctx .X hT h1 hc
+  · simp only [reduceCtorEq, if_false]; exact h1
+  · by_cases ht : (call ctx .X c w1).2 = .t
+    · rw [if_pos ht]; exact wi_callX_close ctx hT h1 hc ht
+    · rw [if_neg ht]; exact wi_callX ctx hT h1 hc ht
 
 theorem isClosed_executeSingle (ctx : Ctx) (c d : Nat) (w : World)
     (hok : (executeSingleSQLInSlice ctx c w).2.isOk = true) :
@@ -678,18 +611,38 @@ theorem executeSingle_ne_t (ctx : Ctx) (hT : NoT ctx) (c : Nat) (w : World) :
 theorem wi_executeUnshard {O : CMap} {M : List Nat} {w : World} (ctx : Ctx) (hT : QH q ctx) {c : Nat}
     (h : WInv q O M w) (hc : c ∈ O.vals) : WInv q O M (executeUnshardSQLInSlice ctx c w).1 := by
   unfold executeUnshardSQLInSlice
-  have h1 := wi_executeSingle ctx hT h hc
-  have hne : q.p = true → (executeSingleSQLInSlice ctx c w).2 ≠ .t :=
-    fun hp => executeSingle_ne_t ctx (hT.p hp).noT c w
-  generalize executeSingleSQLInSlice ctx c w = p at h1 hne
+  have h1 := wi_executeSingle_close ctx hT h hc
+  generalize executeSingleSQLInSlice ctx c w = p at h1
   obtain ⟨w1, r1⟩ := p
-  simp only
+  simp only at h1 ⊢
   split
-  · rename_i ht
-    cases hp : q.p with
-    | false => exact wi_close hp h1 hc
-    | true => exact absurd ht (hne hp)
-  · exact h1
+  · rename_i ht; rw [if_pos ht] at h1; exact h1
+  · rename_i ht; rw [if_neg ht] at h1; exact h1
+
+/-- `executeMultipleSQLInSlice`: the statement, the fetch of its pending rows, the `Close` after a timeout -/
+theorem wi_executeMultiple {O : CMap} {M : List Nat} {w : World} (ctx : Ctx) (hT : QH q ctx) (rs : Bool) {c : Nat}
+    (h : WInv q O M w) (hc : c ∈ O.vals) : WInv q O M (executeMultipleSQLInSlice ctx rs c w).1 := by
+  unfold executeMultipleSQLInSlice executeCompleteSQLInSlice
+  have h1 := wi_executeSingle_close ctx hT h hc
+  generalize executeSingleSQLInSlice ctx c w = p at h1
+  obtain ⟨w1, r1⟩ := p
+  simp only at h1 ⊢
+  by_cases hm : (r1.isOk && rs && moreRows c w1) = true
+  · have hnt : r1 ≠ .t := by
+      intro e; subst e; simp [Res.isOk] at hm
+    rw [if_neg hnt] at h1
+    simp only [hm, if_true]
+    have h2 := wi_call ctx .M hT h1 hc
+    generalize call ctx .M c w1 = pM at h2
+    obtain ⟨w2, r2⟩ := pM
+    simp only at h2 ⊢
+    have hne : (if r2.isOk = true then Res.ok else Res.e) ≠ Res.t := by split <;> simp
+    rw [if_neg hne]; exact h2
+  · have hm' : (r1.isOk && rs && moreRows c w1) = false := by simpa using hm
+    simp only [hm', Bool.false_eq_true, if_false]
+    split
+    · rename_i ht; rw [if_pos ht] at h1; exact h1
+    · rename_i ht; rw [if_neg ht] at h1; exact h1
 
 theorem isClosed_executeUnshard (ctx : Ctx) (c d : Nat) (w : World)
     (hok : (executeUnshardSQLInSlice ctx c w).2.isOk = true) :
@@ -704,6 +657,22 @@ theorem isClosed_executeUnshard (ctx : Ctx) (c d : Nat) (w : World)
   · rename_i hnt
     rw [if_neg hnt] at hok
     exact h1 hok
+
+/-- `writeOKResultStream`: the fetch of the pending rows and of the further results -/
+theorem wi_streamRest {O : CMap} {M : List Nat} {w : World} (ctx : Ctx) (hT : QH q ctx) {c : Nat}
+    (h : WInv q O M w) (hc : c ∈ O.vals) : WInv q O M (streamRest ctx c w) := by
+  unfold streamRest
+  have h1 : WInv q O M (if moreRows c w then
+      (let (w, r) := call ctx .M c w; (w, r.isOk)) else (w, true)).1 := by
+    split
+    · exact wi_call ctx .M hT h hc
+    · exact h
+  generalize (if moreRows c w then (let (w, r) := call ctx .M c w; (w, r.isOk)) else (w, true)) = p at h1
+  obtain ⟨w1, ok⟩ := p
+  simp only at h1 ⊢
+  split
+  · exact wi_call ctx .N hT h1 hc
+  · exact h1
 
 /-- the invariant between `executeCommand` and `writeResponse`: a streamed result
     keeps its connection (`continueConn`) out until the response is written -/
@@ -939,19 +908,19 @@ theorem inv_getBackendConns {fromSlave : Bool} (hcfg : ctx.cfg = cfg) (hT : QH q
         (by unfold PcsOK; rw [if_neg (fun h => hmd (hmode.1 h))]) hg
       exact ⟨hF.trans hF2, fun hp => hmode.1 (hpan hp), L', hI2, hP2⟩
 
-theorem wi_execShard {O : CMap} {M : List Nat} (ctx : Ctx) (hT : QH q ctx) :
-    ∀ (cs : List Nat) (w : World), (∀ c ∈ cs, c ∈ O.vals) → WInv q O M w → WInv q O M (execShard ctx cs w).1 := by
+theorem wi_execShard {O : CMap} {M : List Nat} (ctx : Ctx) (hT : QH q ctx) (rs : Bool) :
+    ∀ (cs : List Nat) (w : World), (∀ c ∈ cs, c ∈ O.vals) → WInv q O M w → WInv q O M (execShard ctx rs cs w).1 := by
   intro cs
   induction cs with
   | nil => intro w _ h; simpa [execShard] using h
   | cons c cs ih =>
     intro w hsub h
     simp only [execShard]
-    have h1 := wi_executeSingle ctx hT h (hsub c (by simp))
-    generalize executeSingleSQLInSlice ctx c w = p at h1
+    have h1 := wi_executeMultiple ctx hT rs h (hsub c (by simp))
+    generalize executeMultipleSQLInSlice ctx rs c w = p at h1
     obtain ⟨w1, r1⟩ := p
     have h2 := ih w1 (fun d hd => hsub d (by simp [hd])) h1
-    generalize execShard ctx cs w1 = p2 at h2
+    generalize execShard ctx rs cs w1 = p2 at h2
     obtain ⟨w2, ok⟩ := p2
     exact h2
 
@@ -1001,9 +970,9 @@ theorem dedup_nodup (l : List Nat) : (dedup l).Nodup := by
     · rename_i hx
       exact List.nodup_cons.2 ⟨fun hmem => hx (by simpa using mem_of_mem_dedup xs x hmem), ih⟩
 
-theorem inv_executeSQLs {fromSlave : Bool} {slices : List Nat} (hcfg : ctx.cfg = cfg) (hT : QH q ctx)
+theorem inv_executeSQLs {fromSlave rs : Bool} {slices : List Nat} (hcfg : ctx.cfg = cfg) (hT : QH q ctx)
     (h : Inv q cfg [] s) :
-    Inv q cfg [] (executeSQLs ctx fromSlave slices s).1 ∧ SameFlags s (executeSQLs ctx fromSlave slices s).1 := by
+    Inv q cfg [] (executeSQLs ctx fromSlave rs slices s).1 ∧ SameFlags s (executeSQLs ctx fromSlave rs slices s).1 := by
   unfold executeSQLs
   split
   · exact ⟨h, SameFlags.refl _⟩
@@ -1034,7 +1003,7 @@ theorem inv_executeSQLs {fromSlave : Bool} {slices : List Nat} (hcfg : ctx.cfg =
       exact ⟨hI2, hF.trans hF2⟩
     | ok =>
       simp only
-      generalize hx : execShard ctx (bySlice pcs).vals s1.w = x
+      generalize hx : execShard ctx rs (bySlice pcs).vals s1.w = x
       obtain ⟨w2, ok⟩ := x
       have hsub : ∀ c ∈ (bySlice pcs).vals, c ∈ (held s1 ++ L').vals := by
         intro c hc
@@ -1045,7 +1014,7 @@ theorem inv_executeSQLs {fromSlave : Bool} {slices : List Nat} (hcfg : ctx.cfg =
         · exact mem_vals.2 ⟨sl, List.mem_append_left _ (hP1.2 _ hsl)⟩
         · subst hP1; exact mem_vals.2 ⟨sl, List.mem_append_right _ hsl⟩
       have hw2 : WInv q (held s1 ++ L') (masters cfg s1) w2 := by
-        have := wi_execShard ctx hT _ _ hsub hI1.wi; rw [hx] at this; exact this
+        have := wi_execShard ctx hT rs _ _ hsub hI1.wi; rw [hx] at this; exact this
       have hI2 : Inv q cfg L' { s1 with w := w2 } := ⟨hw2, hI1.ksOff, hI1.ksOn, hI1.txIdle⟩
       obtain ⟨hI3, hF3⟩ := inv_recycleBackendConns (pcs := pcs) hcfg hI2 hP1
       simp only
@@ -1279,7 +1248,7 @@ theorem inv_dropKs {body : Nat → World → World} {w : World}
   · simp only [held, htx, hks, hw', List.append_nil]
     refine h1.subM ?_
     intro d hd
-    simp only [masters, htx, hks, CMap.vals, List.map_nil, ite_self, List.append_nil] at hd
+    simp only [masters, htx, hks, CMap.vals, List.map_nil, List.append_nil] at hd
     simp only [masters, List.mem_append]
     exact Or.inl hd
   · intro hk; rw [htx]; exact h.ksOn hk
@@ -1421,7 +1390,7 @@ theorem mid_executeCommand (hcfg : ctx.cfg = cfg) (hT : QH q ctx) (b : Body) (h 
     dsimp only
     split
     · exact mid_of_inv hI hc
-    · obtain ⟨h1, hF⟩ := inv_executeSQLs (fromSlave := checkExecuteFromSlave ctx.cfg.user k) (slices := slices) hcfg hT hI
+    · obtain ⟨h1, hF⟩ := inv_executeSQLs (fromSlave := checkExecuteFromSlave ctx.cfg.user k) (rs := k != .w) (slices := slices) hcfg hT hI
       exact mid_of_inv h1 (by rw [hF.continueConn]; exact hc)
   | «show» => exact (inv_executeSQL hcfg hT hI hc).1
   | fl =>
@@ -1459,7 +1428,7 @@ theorem closed_executeCommand (hcfg : ctx.cfg = cfg) (hT : QH q ctx) (b : Body) 
     dsimp only
     split
     · rfl
-    · exact (inv_executeSQLs (fromSlave := checkExecuteFromSlave ctx.cfg.user k) (slices := slices) hcfg hT hI).2.closed
+    · exact (inv_executeSQLs (fromSlave := checkExecuteFromSlave ctx.cfg.user k) (rs := k != .w) (slices := slices) hcfg hT hI).2.closed
   | «show» => exact (inv_executeSQL hcfg hT hI hc).2.closed
   | fl => exact (inv_handleFieldList hcfg hT hI hc).2.closed
   | begin =>
@@ -1507,7 +1476,7 @@ theorem closed_recycleContinueConn (pc : Option Nat) : (recycleContinueConn ctx 
   · rfl
   · dsimp only
     split
-    · exact (flags_recycleTx _).closed
+    · split <;> rfl
     · split
       · exact flags_clearKsConns.closed
       · split <;> rfl
@@ -1516,7 +1485,7 @@ theorem closed_writeResponse (r : Resp) : (writeResponse ctx r s).1.closed = s.c
   have e : (writeResponse ctx r s).1 =
       (fun s1 : St => ({ (recycleContinueConn ctx s1.continueConn s1) with continueConn := none } : St))
       (match s.continueConn with
-       | some c => if (r == .res || r == .ok) && moreRows c s.w then { s with w := (call ctx .M c s.w).1 } else s
+       | some c => if r == .res || r == .ok then { s with w := streamRest ctx c s.w } else s
        | none => s) := rfl
   rw [e]
   simp only [closed_recycleContinueConn]
@@ -1531,11 +1500,11 @@ theorem idle_writeResponse (hcfg : ctx.cfg = cfg) (hT : QH q ctx) (r : Resp) (h 
   have e : (writeResponse ctx r s).1 =
       (fun s1 : St => ({ (recycleContinueConn ctx s1.continueConn s1) with continueConn := none } : St))
       (match s.continueConn with
-       | some c => if (r == .res || r == .ok) && moreRows c s.w then { s with w := (call ctx .M c s.w).1 } else s
+       | some c => if r == .res || r == .ok then { s with w := streamRest ctx c s.w } else s
        | none => s) := rfl
   rw [e]
   generalize hs1 : (match s.continueConn with
-       | some c => if (r == Resp.res || r == Resp.ok) && moreRows c s.w then { s with w := (call ctx .M c s.w).1 } else s
+       | some c => if r == Resp.res || r == Resp.ok then { s with w := streamRest ctx c s.w } else s
        | none => s) = s1
   have hc1 : s1.continueConn = s.continueConn := by
     rw [← hs1]; split
@@ -1546,7 +1515,7 @@ theorem idle_writeResponse (hcfg : ctx.cfg = cfg) (hT : QH q ctx) (r : Resp) (h 
     intro L c hcc hI hcm
     rw [← hs1]; simp only [hcc]
     split
-    · exact ⟨wi_call ctx .M hT hI.wi hcm, hI.ksOff, hI.ksOn, hI.txIdle⟩
+    · exact ⟨wi_streamRest ctx hT hI.wi hcm, hI.ksOff, hI.ksOn, hI.txIdle⟩
     · exact hI
   have hO1 : ∀ {L : CMap} {c : Nat}, s.continueConn = some c → OwnedBy cfg L s c → OwnedBy cfg L s1 c := by
     intro L c hcc hO
@@ -1645,7 +1614,7 @@ theorem idle_runCommand (hcfg : ctx.cfg = cfg) (hT : QH q ctx) (b : Body) (h : I
   dsimp only at h4 c4 ⊢
   split
   · exact idle_sessionClose hT (idle_clearKsConns h4)
-  · have h5 : Idle q cfg (if b == .quit || shouldClear ctx s4 then sessionClose ctx s4 else s4) := by
+  · have h5 : Idle q cfg (if b == .quit || shouldClear ctx s4 || txConnLost s4 then sessionClose ctx s4 else s4) := by
       split
       · exact idle_sessionClose hT h4
       · exact h4
@@ -1659,17 +1628,16 @@ def NoTOp (op : Op) : Prop := ∀ f ∈ op.faults, f.mode ≠ .t
 def CalmOp (op : Op) : Prop := ∀ f ∈ op.faults, f.mode ≠ .t ∧ f.mode ≠ .z ∧ f.k ≠ .p
 
 structure QHOp (q : Q) (op : Op) : Prop where
-  t : q.t = true → NoTOp op
   p : q.p = true → CalmOp op
 
 theorem QHOp.toCtx {op : Op} (h : QHOp q op) (cfg : Cfg) : QH q { cfg := cfg, ord := op.ord, faults := op.faults } :=
-  ⟨fun hq f hf => h.t hq f hf, fun hq f hf => h.p hq f hf⟩
+  ⟨fun hq f hf => h.p hq f hf⟩
 
-/-- nothing optional tracked: no hypothesis on the faults -/
-def qNone : Q := { t := false, p := false }
+/-- what needs no hypothesis on the faults: everything but "a closed connection has been given back" -/
+def qNone : Q := { t := true, p := false }
 
 theorem qhop_none (op : Op) : QHOp qNone op :=
-  ⟨fun h => by simp [qNone] at h, fun h => by simp [qNone] at h⟩
+  ⟨fun h => by simp [qNone] at h⟩
 
 theorem idle_step (op : Op) (hT : QHOp q op) (h : Idle q cfg s) : Idle q cfg (step cfg s op).1 := by
   unfold step
